@@ -4,7 +4,8 @@
    Two readings of every operation, selected by [mode]:
      MS = ECMA-262 (10.4.5, 23.2, 25.1-25.3) written plainly;
      MI = goja's arithmetic as written in typedarrays.go / builtin_typedarrays.go / runtime.go
-          (amd64: float->int64 of an out-of-range value gives -2^63).
+          (after the round-1 repairs: copyWithin clamp, set(array) through _putIdx, modular
+          integer conversions, BigInt64 raw sign, DataView/ArrayBuffer.slice detach checks).
    The two share the skeleton of an operation (coercions in argument order, validation, byte
    access); every place where goja's code differs from the specification is an explicit
    [match m with MS => .. | MI => .. end].
@@ -57,14 +58,15 @@ Definition wrap_s (bits z : Z) : Z :=
   let u := z mod 2 ^ bits in if u <? 2 ^ (bits - 1) then u else u - 2 ^ bits.
 
 (* truncate(ToNumber) feeding the modular conversions; NaN, +-inf -> 0.
-   MI: "int8(int64(f))": on amd64 an int64 conversion of a value outside [-2^63, 2^63) is -2^63 *)
+   MI: floatToInt64Mod32: int64(f) inside [-2^63, 2^63), else int64(math.Mod(f, 2^32)) (Go's Mod has
+   the sign of the dividend: Z.rem) *)
 Definition int_of_float (m : mode) (f : spec_float) : Z :=
   match trunc_Z f with
   | None => 0
   | Some t =>
       match m with
       | MS => t
-      | MI => if (- 2 ^ 63 <=? t) && (t <? 2 ^ 63) then t else - 2 ^ 63
+      | MI => if (- 2 ^ 63 <=? t) && (t <? 2 ^ 63) then t else Z.rem t (2 ^ 32)
       end
   end.
 
@@ -274,8 +276,9 @@ Inductive op :=
 | OSlice (v : nat) (s e : option iarg)
 | OSubarray (v : nat) (s e : option iarg)
 | OReverse (v : nat)
-| ODvGet (d : nat) (k : kind) (i : iarg) (le : bool)
-| ODvSet (d : nat) (k : kind) (i : iarg) (a : varg) (le : bool)
+| OSort (v : nat)                                             (* V[v].sort() without comparator *)
+| ODvGet (d : nat) (k : kind) (i : iarg) (le : option bool)   (* None: littleEndian argument omitted *)
+| ODvSet (d : nat) (k : kind) (i : iarg) (a : varg) (le : option bool)
 | OBufSlice (b : nat) (s e : option iarg)
 | OGoWrite (b : nat) (i : Z) (x : N)                          (* the Go owner writes its slice *)
 | ODetach (b : nat)                                           (* ArrayBuffer.Detach() from Go *)
@@ -284,9 +287,12 @@ Inductive op :=
 Definition out := (state * res * list touch)%type.
 Definition fail (st : state) (e : err) (t : list touch) : out := (st, RErr e, t).
 
+Definition add_view (st : state) (vw : view) : state := mkSt (bufs st) (views st ++ [vw]) (dviews st).
+Definition add_dview (st : state) (dv : dview) : state := mkSt (bufs st) (views st) (dviews st ++ [dv]).
+
 (* --- new T(buffer, byteOffset, length): InitializeTypedArrayFromArrayBuffer /
        _newTypedArrayFromArrayBuffer (same order of checks in both) *)
-Definition op_ctor (m : mode) (st : state) (k : kind) (b : nat) (off len : option iarg) : out :=
+Definition op_ctor (st : state) (k : kind) (b : nat) (off len : option iarg) : out :=
   let sz := esize k in
   let '(st1, o) := co_opt st off 0 in
   match to_index o with
@@ -301,41 +307,37 @@ Definition op_ctor (m : mode) (st : state) (k : kind) (b : nat) (off len : optio
           | Some n =>
               if is_det st2 b then fail st2 TypeError [] else
               if offset + n * sz >? jlen st2 b then fail st2 RangeError [] else
-              (mkSt (bufs st2) (views st2 ++ [mkView b offset n k]) (dviews st2), RNewView n, [])
+              (add_view st2 (mkView b offset n k), RNewView n, [])
           end
       | None =>
           if is_det st1 b then fail st1 TypeError [] else
           let bl := jlen st1 b in
           if negb (bl mod sz =? 0) then fail st1 RangeError [] else
           if bl - offset <? 0 then fail st1 RangeError [] else
-          let n := (bl - offset) / sz in
-          (mkSt (bufs st1) (views st1 ++ [mkView b offset n k]) (dviews st1), RNewView n, [])
+          (add_view st1 (mkView b offset ((bl - offset) / sz) k), RNewView ((bl - offset) / sz), [])
       end
   end.
 
-(* --- new DataView(buffer, byteOffset, byteLength) *)
-Definition op_dvctor (m : mode) (st : state) (b : nat) (off len : option iarg) : out :=
+(* --- new DataView(buffer, byteOffset, byteLength): the length is checked against the buffer length
+       read before ToIndex(byteLength); detachment is tested again afterwards *)
+Definition op_dvctor (st : state) (b : nat) (off len : option iarg) : out :=
   let '(st1, o) := co_opt st off 0 in
   match to_index o with
   | None => fail st1 RangeError []
   | Some offset =>
       if is_det st1 b then fail st1 TypeError [] else
-      let bl := jlen st1 b in                   (* captured before ToIndex(byteLength) in the spec *)
+      let bl := jlen st1 b in
       if offset >? bl then fail st1 RangeError [] else
       match len with
-      | None =>
-          (mkSt (bufs st1) (views st1) (dviews st1 ++ [mkDv b offset (bl - offset)]), RNewView (bl - offset), [])
+      | None => (add_dview st1 (mkDv b offset (bl - offset)), RNewView (bl - offset), [])
       | Some la =>
           let '(st2, l) := co_int st1 la in
           match to_index l with
           | None => fail st2 RangeError []
           | Some n =>
-              (* goja re-reads len(buffer.data) (0 after a detach) for the range check and only then
-                 tests for detachment; the spec tests the length captured above, then detachment *)
-              let bl2 := match m with MS => bl | MI => jlen st2 b end in
-              if offset + n >? bl2 then fail st2 RangeError [] else
+              if offset + n >? bl then fail st2 RangeError [] else
               if is_det st2 b then fail st2 TypeError [] else
-              (mkSt (bufs st2) (views st2) (dviews st2 ++ [mkDv b offset n]), RNewView n, [])
+              (add_dview st2 (mkDv b offset n), RNewView n, [])
           end
       end
   end.
@@ -353,12 +355,22 @@ Definition op_get (m : mode) (st : state) (v : nat) (k : key) : out :=
         else (st, RUndef, [])
     end).
 
-(* --- V[v][key] = a   (TypedArraySetElement / _putIdx: convert, then test the index, then store) *)
+(* --- V[v][key] = a   (TypedArraySetElement: convert, then test the index, then store).
+   goja: a key that strToIntNum does not return as an int (a non-integer canonical numeric string, or
+   an integer beyond +-2^53) only gets toNumeric(value): the value's valueOf runs, but a value of the
+   wrong type (Number for a BigInt array or the reverse) raises no TypeError (open finding C17-N9) *)
+Definition key_converts (m : mode) (k : key) : bool :=
+  match m, k with
+  | MS, _ => true
+  | MI, KIdx z => Z.abs z <=? 2 ^ 53
+  | MI, KNonInt => false
+  end.
+
 Definition op_set (m : mode) (st : state) (v : nat) (k : key) (a : varg) : out :=
   with_view st v (fun vw =>
     let '(st1, p) := co_val st a in
     match num_to_raw m (v_kind vw) true p with
-    | None => fail st1 TypeError []
+    | None => if key_converts m k then fail st1 TypeError [] else (st1, RUndef, [])
     | Some bs =>
         match k with
         | KNonInt => (st1, RUndef, [])
@@ -368,33 +380,19 @@ Definition op_set (m : mode) (st : state) (v : nat) (k : key) (a : varg) : out :
         end
     end).
 
-(* --- V[v].set(array, off) *)
+(* --- V[v].set(array, off): every element through TypedArraySetElement / _putIdx:
+       ToNumber/ToBigInt first (may detach), then IsValidIntegerIndex, then the store *)
 Fixpoint setarr_loop (m : mode) (st : state) (vw : view) (i : Z) (src : list varg) (acc : list touch) : out :=
   match src with
   | [] => (st, RUndef, acc)
   | a :: r =>
-      match m with
-      | MS =>
-          (* TypedArraySetElement: ToNumber/ToBigInt first, then IsValidIntegerIndex, then store *)
-          let '(st1, p) := co_val st a in
-          match num_to_raw MS (v_kind vw) true p with
-          | None => fail st1 TypeError acc
-          | Some bs =>
-              if valid_idx st1 vw i then
-                let '(st2, t) := put_raw MS st1 vw i bs in setarr_loop m st2 vw (i + 1) r (acc ++ [t])
-              else setarr_loop m st1 vw (i + 1) r acc
-          end
-      | MI =>
-          (* goja: isValidIntegerIndex first; then typedArray.set(idx, val) takes the element pointer
-             and only then converts val (running its valueOf); the store goes through that pointer *)
-          if valid_idx st vw i then
-            let '(st1, p) := co_val st a in
-            match num_to_raw MI (v_kind vw) true p with
-            | None => fail st1 TypeError acc
-            | Some bs =>
-                let '(st2, t) := put_raw MI st1 vw i bs in setarr_loop m st2 vw (i + 1) r (acc ++ [t])
-            end
-          else setarr_loop m st vw (i + 1) r acc
+      let '(st1, p) := co_val st a in
+      match num_to_raw m (v_kind vw) true p with
+      | None => fail st1 TypeError acc
+      | Some bs =>
+          if valid_idx st1 vw i then
+            let '(st2, t) := put_raw m st1 vw i bs in setarr_loop m st2 vw (i + 1) r (acc ++ [t])
+          else setarr_loop m st1 vw (i + 1) r acc
       end
   end.
 
@@ -412,13 +410,13 @@ Fixpoint seqZ (lo : Z) (n : nat) : list Z := match n with O => [] | S n' => lo :
 (* S: the source elements are read first (the spec clones the source when the buffers coincide) *)
 Fixpoint read_all (st : state) (src : view) (idxs : list Z) : list (elt * touch) :=
   match idxs with [] => [] | i :: r => get_elt MS st src i :: read_all st src r end.
-Fixpoint write_all (m : mode) (st : state) (dst : view) (i : Z) (es : list (elt * touch)) (acc : list touch) : out :=
+Fixpoint write_all (st : state) (dst : view) (i : Z) (es : list (elt * touch)) (acc : list touch) : out :=
   match es with
   | [] => (st, RUndef, acc)
   | (e, t0) :: r =>
-      match num_to_raw m (v_kind dst) true (pv_of_elt e) with
+      match num_to_raw MS (v_kind dst) true (pv_of_elt e) with
       | None => fail st TypeError acc
-      | Some bs => let '(st1, t) := put_raw m st dst i bs in write_all m st1 dst (i + 1) r (acc ++ [t0; t])
+      | Some bs => let '(st1, t) := put_raw MS st dst i bs in write_all st1 dst (i + 1) r (acc ++ [t0; t])
       end
   end.
 (* I: element by element, in place, in goja's order *)
@@ -456,41 +454,27 @@ Definition op_settyped (m : mode) (st : state) (v sv : nat) (off : iarg) : out :
     if toff <? 0 then fail st1 RangeError [] else
     if is_det st1 (v_buf dst) then fail st1 TypeError [] else
     if is_det st1 (v_buf src) then fail st1 TypeError [] else
-    let too_large := v_len src + toff >? v_len dst in
-    let mix := negb (Bool.eqb (is_big (v_kind src)) (is_big (v_kind dst))) in
-    (* spec: content-type mismatch (TypeError) is tested before the size (RangeError); goja: after *)
-    let pre : option err :=
+    (* SetTypedArrayFromTypedArray: the size test (RangeError) precedes the content-type test *)
+    if v_len src + toff >? v_len dst then fail st1 RangeError [] else
+    if negb (Bool.eqb (is_big (v_kind src)) (is_big (v_kind dst))) then fail st1 TypeError [] else
+    let ss := esize (v_kind src) in
+    if kind_eqb (v_kind src) (v_kind dst) then
+      (* same element type: one block move of the bytes (memmove semantics) *)
+      let sa := addr m src 0 in
+      let da := addr m dst toff in
+      let n := v_len src * ss in
+      let bs := rd_buf st1 (v_buf src) sa n in
+      (wr_buf st1 (v_buf dst) da bs, RUndef,
+       if n >? 0 then [tch st1 (v_buf src) sa n; tch st1 (v_buf dst) da n] else [])
+    else
       match m with
-      | MS => if mix then Some TypeError else if too_large then Some RangeError else None
-      | MI => if too_large then Some RangeError else None
-      end in
-    match pre with
-    | Some e => fail st1 e []
-    | None =>
-        let ss := esize (v_kind src) in
-        let ds := esize (v_kind dst) in
-        if kind_eqb (v_kind src) (v_kind dst) then
-          (* same element type: one block move of the bytes (memmove semantics) *)
-          let sa := addr m src 0 in
-          let da := addr m dst toff in
-          let n := v_len src * ss in
-          let bs := rd_buf st1 (v_buf src) sa n in
-          (wr_buf st1 (v_buf dst) da bs, RUndef,
-           if n >? 0 then [tch st1 (v_buf src) sa n; tch st1 (v_buf dst) da n] else [])
-        else
-          match m with
-          | MS => write_all MS st1 dst toff (read_all st1 src (seqZ 0 (Z.to_nat (v_len src)))) []
-          | MI =>
-              if mix && is_big (v_kind src) then fail st1 TypeError [] else
-              (* &data[src.offset*size] and &data[(offset+targetOffset)*size] are index expressions:
-                 a Go run-time panic when the address is one past the end of the data *)
-              if (addr MI src 0 >=? jlen st1 (v_buf src)) || (addr MI dst toff >=? jlen st1 (v_buf dst))
-              then (st1, RPanic, [])
+      | MS => write_all st1 dst toff (read_all st1 src (seqZ 0 (Z.to_nat (v_len src)))) []
+      | MI => if v_len src =? 0 then (st1, RUndef, [])
               else copy_inplace st1 dst src toff (goja_order dst src toff) []
-          end
-    end)).
+      end)).
 
-(* --- V[v].copyWithin(target, start, end) *)
+(* --- V[v].copyWithin(target, start, end): count = min(final - from, len - to); the buffer is tested
+       for detachment again only when count > 0 *)
 Definition op_copywithin (m : mode) (st : state) (v : nat) (t f : iarg) (e : option iarg) : out :=
   with_view st v (fun vw =>
     if is_det st (v_buf vw) then fail st TypeError [] else
@@ -502,63 +486,52 @@ Definition op_copywithin (m : mode) (st : state) (v : nat) (t f : iarg) (e : opt
     let to := rel_idx rt l in
     let from := rel_idx rf l in
     let final := rel_idx re l in
-    match m with
-    | MS =>
-        let count := Z.min (final - from) (l - to) in
-        if count >? 0 then
-          if is_det st3 (v_buf vw) then fail st3 TypeError [] else
-          let bs := rd_buf st3 (v_buf vw) (addr MS vw from) (count * sz) in
-          (wr_buf st3 (v_buf vw) (addr MS vw to) bs, RUndef,
-           [tch st3 (v_buf vw) (addr MS vw from) (count * sz); tch st3 (v_buf vw) (addr MS vw to) (count * sz)])
-        else (st3, RUndef, [])
-    | MI =>
-        (* copy(data[(offset+to)*elemSize:], data[(offset+from)*elemSize:(offset+final)*elemSize]):
-           the destination slice runs to the end of the BUFFER, not of the view *)
-        if final >? from then
-          if is_det st3 (v_buf vw) then fail st3 TypeError [] else
-          let n := Z.min ((final - from) * sz) (jlen st3 (v_buf vw) - addr MI vw to) in
-          let bs := rd_buf st3 (v_buf vw) (addr MI vw from) n in
-          (wr_buf st3 (v_buf vw) (addr MI vw to) bs, RUndef,
-           if n >? 0 then [tch st3 (v_buf vw) (addr MI vw from) n; tch st3 (v_buf vw) (addr MI vw to) n] else [])
-        else (st3, RUndef, [])
-    end).
+    let count := Z.min (final - from) (l - to) in
+    if count >? 0 then
+      if is_det st3 (v_buf vw) then fail st3 TypeError [] else
+      let bs := rd_buf st3 (v_buf vw) (addr m vw from) (count * sz) in
+      (wr_buf st3 (v_buf vw) (addr m vw to) bs, RUndef,
+       [tch st3 (v_buf vw) (addr m vw from) (count * sz); tch st3 (v_buf vw) (addr m vw to) (count * sz)])
+    else (st3, RUndef, [])).
 
 (* --- V[v].fill(value, start, end) *)
 Definition repeat_bytes (bs : list N) (n : Z) : list N := concat (repeat bs (Z.to_nat n)).
 
+Definition fill_tail (m : mode) (st : state) (vw : view) (bs : list N) (rs re : Z) : out :=
+  let l := v_len vw in
+  let k := rel_idx rs l in
+  let final := rel_idx re l in
+  if is_det st (v_buf vw) then fail st TypeError [] else
+  if final >? k then
+    (wr_buf st (v_buf vw) (addr m vw k) (repeat_bytes bs (final - k)), RUndef,
+     [tch st (v_buf vw) (addr m vw k) ((final - k) * esize (v_kind vw))])
+  else (st, RUndef, []).
+
+(* spec order of the coercions: value, start, end; goja: start, end, value (open finding C17-N8).
+   The order is visible in the model when the value is of the wrong type: the TypeError comes
+   before (spec) or after (goja) the effects of start/end *)
 Definition op_fill (m : mode) (st : state) (v : nat) (a : varg) (s e : option iarg) : out :=
   with_view st v (fun vw =>
     if is_det st (v_buf vw) then fail st TypeError [] else
     let l := v_len vw in
-    let sz := esize (v_kind vw) in
-    (* spec order: value, start, end; goja: start, end, value.  The order is only visible when the
-       value is of the wrong type (TypeError before or after the other coercions ran) *)
-    let '(stv, p, rs, re) :=
-      match m with
-      | MS => let '(s1, p) := co_val st a in
-              match num_to_raw m (v_kind vw) true p with
-              | None => (s1, p, 0, 0)
-              | Some _ => let '(s2, rs) := co_opt s1 s 0 in let '(s3, re) := co_opt s2 e l in (s3, p, rs, re)
-              end
-      | MI => let '(s1, rs) := co_opt st s 0 in let '(s2, re) := co_opt s1 e l in
-              let '(s3, p) := co_val s2 a in (s3, p, rs, re)
-      end in
-    match num_to_raw m (v_kind vw) true p with
-    | None => fail stv TypeError []
-    | Some bs0 =>
-        (* goja: bigInt64Array.toRaw = toBigInt64(v).Uint64(): big.Int.Uint64 of a negative number is
-           the low 64 bits of its MAGNITUDE *)
-        let bs := match m, v_kind vw, p with
-                  | MI, BigInt64, PBig z => le_bytes 8 (Z.abs (wrap_s 64 z))
-                  | _, _, _ => bs0
-                  end in
-        let k := rel_idx rs l in
-        let final := rel_idx re l in
-        if is_det stv (v_buf vw) then fail stv TypeError [] else
-        if final >? k then
-          (wr_buf stv (v_buf vw) (addr m vw k) (repeat_bytes bs (final - k)), RUndef,
-           [tch stv (v_buf vw) (addr m vw k) ((final - k) * sz)])
-        else (stv, RUndef, [])
+    match m with
+    | MS =>
+        let '(s1, p) := co_val st a in
+        match num_to_raw MS (v_kind vw) true p with
+        | None => fail s1 TypeError []
+        | Some bs =>
+            let '(s2, rs) := co_opt s1 s 0 in
+            let '(s3, re) := co_opt s2 e l in
+            fill_tail MS s3 vw bs rs re
+        end
+    | MI =>
+        let '(s1, rs) := co_opt st s 0 in
+        let '(s2, re) := co_opt s1 e l in
+        let '(s3, p) := co_val s2 a in
+        match num_to_raw MI (v_kind vw) true p with
+        | None => fail s3 TypeError []
+        | Some bs => fill_tail MI s3 vw bs rs re
+        end
     end).
 
 (* --- V[v].slice(start, end)  (default species: a new array on a new buffer) *)
@@ -596,7 +569,7 @@ Definition op_subarray (m : mode) (st : state) (v : nat) (s e : option iarg) : o
     let boff := addr m vw b in
     if is_det st2 (v_buf vw) then fail st2 TypeError [] else
     if boff + n * sz >? jlen st2 (v_buf vw) then fail st2 RangeError [] else
-    (mkSt (bufs st2) (views st2 ++ [mkView (v_buf vw) boff n (v_kind vw)]) (dviews st2), RNewView n, [])).
+    (add_view st2 (mkView (v_buf vw) boff n (v_kind vw)), RNewView n, [])).
 
 (* --- V[v].reverse() *)
 Fixpoint chunks (n : nat) (fuel : nat) (l : list N) : list (list N) :=
@@ -616,8 +589,42 @@ Definition op_reverse (m : mode) (st : state) (v : nat) : out :=
       (wr_buf st (v_buf vw) a rv, RUndef, [tch st (v_buf vw) a n])
     else (st, RUndef, [])).
 
-(* --- DataView get/set: GetViewValue / SetViewValue ; getIdxAndByteOrder *)
-Definition op_dvget (m : mode) (st : state) (d : nat) (k : kind) (i : iarg) (le : bool) : out :=
+(* --- V[v].sort(): numeric order, -0 before +0, NaN last, stable (23.2.3.29 / typedFloatLess) *)
+Definition elt_lt (x y : elt) : bool :=
+  match x, y with
+  | EInt a, EInt b | EBig a, EBig b => a <? b
+  | EFlt a, EFlt b =>
+      if is_nan b then negb (is_nan a)
+      else if is_nan a then false
+      else if is_zero a && is_zero b then sign_bit a && negb (sign_bit b)
+      else SFltb a b
+  | _, _ => false
+  end.
+Fixpoint sort_insert (k : kind) (x : list N) (l : list (list N)) : list (list N) :=
+  match l with
+  | [] => [x]
+  | y :: r => if elt_lt (raw_to_num k true y) (raw_to_num k true x) then y :: sort_insert k x r
+              else x :: y :: r
+  end.
+Definition sort_chunks (k : kind) (l : list (list N)) : list (list N) := fold_right (sort_insert k) [] l.
+
+Definition op_sort (m : mode) (st : state) (v : nat) : out :=
+  with_view st v (fun vw =>
+    if is_det st (v_buf vw) then fail st TypeError [] else
+    let sz := esize (v_kind vw) in
+    let n := v_len vw * sz in
+    let a := addr m vw 0 in
+    if v_len vw >=? 2 then
+      let bs := rd_buf st (v_buf vw) a n in
+      let sv := concat (sort_chunks (v_kind vw) (chunks (Z.to_nat sz) (length bs) bs)) in
+      (wr_buf st (v_buf vw) a sv, RUndef, [tch st (v_buf vw) a n])
+    else (st, RUndef, [])).
+
+(* --- DataView get/set: GetViewValue / SetViewValue ; getIdxAndByteOrder.
+       An omitted littleEndian argument means big-endian. *)
+Definition le_of (le : option bool) : bool := match le with Some b => b | None => false end.
+
+Definition op_dvget (m : mode) (st : state) (d : nat) (k : kind) (i : iarg) (le : option bool) : out :=
   match nth_error (dviews st) d with
   | None => fail st TypeError []
   | Some dv =>
@@ -628,11 +635,11 @@ Definition op_dvget (m : mode) (st : state) (d : nat) (k : kind) (i : iarg) (le 
           if is_det st1 (d_buf dv) then fail st1 TypeError [] else
           if idx + esize k >? d_len dv then fail st1 RangeError [] else
           let a := d_off dv + idx in
-          (st1, RElt (raw_to_num k le (rd_buf st1 (d_buf dv) a (esize k))), [tch st1 (d_buf dv) a (esize k)])
+          (st1, RElt (raw_to_num k (le_of le) (rd_buf st1 (d_buf dv) a (esize k))), [tch st1 (d_buf dv) a (esize k)])
       end
   end.
 
-Definition op_dvset (m : mode) (st : state) (d : nat) (k : kind) (i : iarg) (a : varg) (le : bool) : out :=
+Definition op_dvset (m : mode) (st : state) (d : nat) (k : kind) (i : iarg) (a : varg) (le : option bool) : out :=
   match nth_error (dviews st) d with
   | None => fail st TypeError []
   | Some dv =>
@@ -641,7 +648,7 @@ Definition op_dvset (m : mode) (st : state) (d : nat) (k : kind) (i : iarg) (a :
       | None => fail st1 RangeError []
       | Some idx =>
           let '(st2, p) := co_val st1 a in
-          match num_to_raw m k le p with
+          match num_to_raw m k (le_of le) p with
           | None => fail st2 TypeError []
           | Some bs =>
               if is_det st2 (d_buf dv) then fail st2 TypeError [] else
@@ -652,11 +659,10 @@ Definition op_dvset (m : mode) (st : state) (d : nat) (k : kind) (i : iarg) (a :
       end
   end.
 
-(* --- B[b].slice(start, end) *)
-Definition op_bufslice (m : mode) (st : state) (b : nat) (s e : option iarg) : out :=
-  (* spec: IsDetachedBuffer(O) -> TypeError before anything else; goja has no such test and sees
-     a zero length *)
-  if (match m with MS => is_det st b | MI => false end) then fail st TypeError [] else
+(* --- B[b].slice(start, end): TypeError for a detached receiver, before the coercions and again
+       after the result was constructed, whatever its length *)
+Definition op_bufslice (st : state) (b : nat) (s e : option iarg) : out :=
+  if is_det st b then fail st TypeError [] else
   let l := jlen st b in
   let '(st1, rs) := co_opt st s 0 in
   let '(st2, re) := co_opt st1 e l in
@@ -664,9 +670,7 @@ Definition op_bufslice (m : mode) (st : state) (b : nat) (s e : option iarg) : o
   let final := rel_idx re l in
   let n := Z.max (final - first) 0 in
   let nb := length (bufs st2) in
-  (* spec: after constructing the result, IsDetachedBuffer(O) -> TypeError, whatever the length;
-     goja tests it only when newLen > 0 *)
-  if (match m with MS => is_det st2 b | MI => (n >? 0) && is_det st2 b end) then fail st2 TypeError [] else
+  if is_det st2 b then fail st2 TypeError [] else
   let bs := rd_buf st2 b first n in
   (mkSt (bufs st2 ++ [mkBuf bs false]) (views st2) (dviews st2), RNewBuf n,
    if n >? 0 then [tch st2 b first n; mkT nb 0 n true] else []).
@@ -678,8 +682,8 @@ Definition op_lens (st : state) (v : nat) : out :=
 
 Definition step (m : mode) (st : state) (o : op) : out :=
   match o with
-  | OCtor k b off len => op_ctor m st k b off len
-  | ODvCtor b off len => op_dvctor m st b off len
+  | OCtor k b off len => op_ctor st k b off len
+  | ODvCtor b off len => op_dvctor st b off len
   | OGet v k => op_get m st v k
   | OSet v k a => op_set m st v k a
   | OSetArr v src off => op_setarr m st v src off
@@ -689,9 +693,10 @@ Definition step (m : mode) (st : state) (o : op) : out :=
   | OSlice v s e => op_slice m st v s e
   | OSubarray v s e => op_subarray m st v s e
   | OReverse v => op_reverse m st v
+  | OSort v => op_sort m st v
   | ODvGet d k i le => op_dvget m st d k i le
   | ODvSet d k i a le => op_dvset m st d k i a le
-  | OBufSlice b s e => op_bufslice m st b s e
+  | OBufSlice b s e => op_bufslice st b s e
   | OGoWrite b i x => (wr_buf st b i [x], RUndef, [])
   | ODetach b => (detach st b, RUndef, [])
   | OLens v => op_lens st v
@@ -710,14 +715,20 @@ Definition dview_region (st : state) (d : nat) : list (nat * Z * Z) :=
   | Some dv => [(d_buf dv, d_off dv, d_off dv + d_len dv)]
   | None => []
   end.
+(* a buffer created by slice: never larger than the source view *)
+Definition new_region (st : state) (v : nat) : list (nat * Z * Z) :=
+  match nth_error (views st) v with
+  | Some vw => [(length (bufs st), 0, v_len vw * esize (v_kind vw))]
+  | None => []
+  end.
 Definition allowed (st : state) (o : op) : list (nat * Z * Z) :=
   match o with
-  | OGet v _ | OSet v _ _ | OSetArr v _ _ | OCopyWithin v _ _ _ | OFill v _ _ _ | OReverse v | OLens v
-  | OSubarray v _ _ => view_region st v
+  | OGet v _ | OSet v _ _ | OSetArr v _ _ | OCopyWithin v _ _ _ | OFill v _ _ _ | OReverse v | OSort v
+  | OLens v | OSubarray v _ _ => view_region st v
   | OSetTyped v sv _ => view_region st v ++ view_region st sv
-  | OSlice v _ _ => view_region st v ++ [(length (bufs st), 0, 2 ^ 53)]
+  | OSlice v _ _ => view_region st v ++ new_region st v
   | ODvGet d _ _ _ | ODvSet d _ _ _ _ => dview_region st d
-  | OBufSlice b _ _ => [(b, 0, mlen st b); (length (bufs st), 0, 2 ^ 53)]
+  | OBufSlice b _ _ => [(b, 0, mlen st b); (length (bufs st), 0, mlen st b)]
   | OCtor _ _ _ _ | ODvCtor _ _ _ | OGoWrite _ _ _ | ODetach _ => []
   end.
 
